@@ -216,6 +216,52 @@ func monitor(w *world, op Op, r result, b, a *snap) (out []finding) {
 		if onlyDead && sum.Sign() != 0 {
 			add("derivative-votes-only-while-bonded", "derivative-of-non-bonded-validator-counted", fmt.Sprintf("counted %s with no voter holding bonded stake", sum))
 		}
+		// a derivative carries the voting power its backing delegation would carry: every voter's
+		// own stake — delegations plus derivatives held in wallet, savings and earn, of validators
+		// in the bonded set — is counted for the options it voted, weight by weight (validators'
+		// inherited power only adds to that).  Lower bound per option, one unit of slack per term.
+		{
+			want := [4]*big.Int{new(big.Int), new(big.Int), new(big.Int), new(big.Int)}
+			terms := int64(0)
+			last := map[int]int{} // a second vote of the same voter replaces the first
+			for k, v := range op.Votes {
+				last[v.Voter] = k
+			}
+			for k, v := range op.Votes {
+				if last[v.Voter] != k {
+					continue
+				}
+				own := new(big.Int)
+				for i := 0; i < nVal; i++ {
+					if !b.curr(i) {
+						continue
+					}
+					sh := new(big.Int).Mul(b.held(v.Voter, i), prec)
+					sh.Add(sh, b.delOr0(v.Voter, i))
+					own.Add(own, stakedValue(b.vals[i], sh))
+					terms++
+				}
+				for _, o := range v.Opts {
+					wd, err := sdk.NewDecFromStr(o.W)
+					if err != nil || o.O < 0 || o.O > 3 || wd.IsNegative() {
+						continue
+					}
+					part := new(big.Int).Mul(own, wd.BigInt())
+					part.Quo(part, prec)
+					want[o.O].Add(want[o.O], part)
+					terms++
+				}
+			}
+			got := [4]*big.Int{t.Yes, t.Abstain, t.No, t.Veto}
+			for o := 0; o < 4; o++ {
+				low := new(big.Int).Sub(want[o], big.NewInt(terms+1))
+				if got[o].Cmp(low) < 0 {
+					add("derivative-carries-the-power-of-its-backing", "tally-undercounts-voter-stake",
+						fmt.Sprintf("option %d: counted %s, the voters' own delegations and derivatives of bonded validators are worth at least %s", o, got[o], want[o]))
+					break
+				}
+			}
+		}
 		// counted once, wherever it is held: moving a voter's wallet derivatives into
 		// savings or earn does not change the result
 		if f := custodyInvariance(w, op, t); f != nil {
